@@ -782,9 +782,21 @@ def r04h(model, ctx):
     tx = [t for t in (template_of(c.args[0]) for c in ast.walk(fh) if isinstance(c, ast.Call) and c.args) if t is not None]
     texts = {t.text().strip() for t in tx if not t.holes}
     loops = [w for w in fh.body if isinstance(w, ast.While)]
-    ok = {"switch {}", "case", "end"} <= texts and len(loops) == 2 and \
-        "isinstance(contents[index], Assignment)" in unparse(loops[0].test) and \
-        any(isinstance(x, ast.If) and "isinstance(contents[index], Assignment)" in unparse(x.test) for x in loops[1].body)
+    grp = [c for c in ast.walk(fh) if isinstance(c, ast.Call) and dotted(c.func) in ("groupby", "itertools.groupby")]
+    if len(loops) == 2:
+        # index scan: a leading run of assignments, then (wrapped runs of assignments | other statements)
+        shape = "isinstance(contents[index], Assignment)" in unparse(loops[0].test) and \
+            any(isinstance(x, ast.If) and "isinstance(contents[index], Assignment)" in unparse(x.test) for x in loops[1].body)
+    elif len(grp) == 1:
+        # runs by groupby(contents, key=is-assignment): a run of assignments that is not the first run is wrapped
+        key = [k.value for k in grp[0].keywords if k.arg == "key"]
+        shape = unparse(grp[0].args[0]) == "contents" and len(key) == 1 and isinstance(key[0], ast.Lambda) and \
+            unparse(key[0].body) == f"isinstance({key[0].args.args[0].arg}, Assignment)" and \
+            any(isinstance(x, ast.If) and isinstance(x.test, ast.BoolOp) and isinstance(x.test.op, ast.And) and
+                any("> 0" in unparse(v) or "!= 0" in unparse(v) for v in x.test.values) for x in ast.walk(fh))
+    else:
+        raise AnalysisError("_emit_process_contents: neither the index scan nor the groupby idiom was recognised")
+    ok = {"switch {}", "case", "end"} <= texts and shape
     ctx.check(ok, R, "_emit_process_contents", "leading assignments are emitted directly, later runs of assignments inside `switch {} / case`",
               "_emit_process_contents must emit the leading assignments as they are and wrap every later run of assignments in "
               "`switch {}` / `case` / `end`, otherwise an assignment written after a switch takes effect before it", f"{RTLIL}:{fh.lineno}")
